@@ -36,6 +36,9 @@ m = {
         {"name": "ciwmc-stateless", "path": "/verif/ciwmc/explore.py",
          "serves_properties": sorted(k for k in CHECKS if k != "C15"),
          "kind_free_text": "stateless exhaustive DFS over all environment answers (samples, routing, tie-breaks) of the real ciw.Simulation, deviation-bounded on large families, with canonical-state accounting and replay-determinism checks"},
+        {"name": "ciwmc-explicit", "path": "/verif/ciwmc/explicit.py",
+         "serves_properties": ["C01", "C02", "C03", "C04", "C05", "C06", "C07", "C11", "C12", "C13", "C17", "C18"],
+         "kind_free_text": "explicit-state breadth-first search over the canonical states of the real engine (replay of answer histories, one more event per level, deduplication on canonical state + pending tie-break), run by the same ./check command after the stateless pass; complete when the frontier empties; cross-checked against the stateless engine's states"},
         {"name": "ciwmc-histories", "path": "/verif/ciwmc/props/c15.py", "serves_properties": ["C15"],
          "kind_free_text": "exhaustive enumeration of bounded histories of public-API operations on the real generators, fresh-interpreter reference digests"},
     ],
